@@ -150,6 +150,29 @@ def holdsMany (H : Str → Str) : List (List Str × Input) → List Outcome → 
   | c :: cs, o :: os => holdsOutcome H .raw c.1 c.2 o && holdsMany H cs os
   | _, _ => false
 
+/-- One body exported in policy mode under the settings `(obfuscate, paths)` that must apply to it: with
+    obfuscation on, a JSON body comes back as a document satisfying the property and any other body as the
+    hash of the whole body; with obfuscation off the body is exported as is. -/
+def holdsExported (H : Str → Str) (obfuscate : Bool) (paths : List Str) : Input → Outcome → Bool
+  | _, .clear => !obfuscate
+  | .json d, .doc out => obfuscate && (!(wellFormed d) || holds H .raw paths d out)
+  | .notJson _, .whole => obfuscate
+  | _, _ => false
+
+def holdsRecords (H : Str → Str) (reqBody respBody : Input) : List Diag → List (Outcome × Outcome) → Bool
+  | [], [] => true
+  | d :: ds, o :: os =>
+    holdsExported H d.obfuscate d.reqPaths reqBody o.1 && holdsExported H d.obfuscate d.respPaths respBody o.2 &&
+      holdsRecords H reqBody respBody ds os
+  | _, _ => false
+
+/-- The property on a policy-mode transaction: exactly one record per ENABLED diagnosis (endpoint ones
+    first, declaration order), each obeying the obfuscation settings of THAT diagnosis — never those of
+    a disabled or of another diagnosis. -/
+def holdsPolicy (H : Str → Str) (ds : List Diag) (reqBody respBody : Input) (records : List (Outcome × Outcome)) : Bool :=
+  holdsRecords H reqBody respBody
+    ((ds.filter fun d => d.endpoint && d.enabled) ++ (ds.filter fun d => !d.endpoint && d.enabled)) records
+
 /-- Classifier of a failing case: no finding of C16 is open (F16a, F16b repaired by fixes/F16a.patch). -/
 def finding (_side : Side) (_ex : List Str) (_d : Json) : Option String := none
 
